@@ -95,6 +95,11 @@ pub enum Op {
     Compact(Option<Vec<u8>>, Option<Vec<u8>>),
     /// close and reopen with this configuration
     Reopen(Cfg),
+    /// close WITHOUT waiting for the background work: the compaction thread is parked at the k-th
+    /// iteration of a table compaction's loop (writes overwrite known keys until one starts), the
+    /// close begins, the thread is released and sees the shutdown flag; then reopen with this
+    /// configuration. An interrupted compaction must not be installed.
+    CloseBusy(u32, Cfg),
     /// take snapshot with this id
     Snap(u32),
     /// release snapshot id
@@ -171,6 +176,7 @@ impl Op {
                 b.as_ref().map_or("*".to_string(), |x| hex(x))
             ),
             Op::Reopen(c) => format!("R:{}", c.to_tok()),
+            Op::CloseBusy(k, c) => format!("Z:{k}:{}", c.to_tok()),
             Op::Snap(i) => format!("N:{i}"),
             Op::Release(i) => format!("X:{i}"),
             Op::GetAt(i, k) => format!("A:{i}:{}", hex(k)),
@@ -211,6 +217,7 @@ impl Op {
                 Op::Compact(a, b)
             }
             "R" => Op::Reopen(Cfg::from_tok(p.get(1)?)?),
+            "Z" => Op::CloseBusy(p.get(1)?.parse().ok()?, Cfg::from_tok(p.get(2)?)?),
             "N" => Op::Snap(p.get(1)?.parse().ok()?),
             "X" => Op::Release(p.get(1)?.parse().ok()?),
             "A" => Op::GetAt(p.get(1)?.parse().ok()?, unhex(p.get(2)?)?),
@@ -283,6 +290,8 @@ pub struct Stats {
     pub snapshots_alive_at_compaction: u64,
     pub idle_checks: u64,
     pub entries_dropped: u64,
+    pub potential_drop: u64,
+    pub closes_during_table_compaction: u64,
     pub lingering: u64,
     pub events_validated: u64,
     pub selections_checked: u64,
@@ -429,6 +438,20 @@ pub fn validate_events(drv: &mut crate::drv::Drv, events: &[Event], obs: &mut Ve
                 let kept: usize = output_entries.iter().map(|o| o.1.len()).sum();
                 let total: usize = input_entries.iter().map(|o| o.1.len()).sum();
                 stats.entries_dropped += (total - kept.min(total)) as u64;
+                // the potential of Rain/Potential.lean (sum of (6 - level) per stored entry) must drop
+                // with every table compaction (C09_compaction_decreases_potential): a direct check of
+                // that consequence on the real transition
+                {
+                    let upper: usize = input_entries.iter().filter(|(n, _)| inputs0.contains(n)).map(|o| o.1.len()).sum();
+                    let lower: usize = total - upper.min(total);
+                    let w = |l: usize| 6usize.saturating_sub(l);
+                    let before = w(*level) * upper + w(*level + 1) * lower;
+                    let after = w(*level + 1) * kept;
+                    if after >= before {
+                        obs.push(Obs { sig: "c09:table-compaction-does-not-lower-the-potential".into(), what: format!("compaction of level {level}: {upper} entries from level {level}, {lower} from level {}, {kept} written: the entry-weighted depth goes from {before} to {after}; table compactions could go on forever", level + 1), at });
+                    }
+                    stats.potential_drop += (before - after.min(before)) as u64;
+                }
                 request = format!(
                     "lsm.compact {} {} {} {} {} {} {}",
                     last_sequence,
@@ -1171,7 +1194,7 @@ pub fn run_history(h: &History, checks: &Checks, fs: &SimFs) -> RunOut {
                     }
                 }
             }
-            Op::Reopen(newcfg) => {
+            Op::Reopen(newcfg) | Op::CloseBusy(_, newcfg) => {
                 // iterators and snapshots do not survive a close
                 iters.clear();
                 snap_seqs.clear();
@@ -1179,12 +1202,64 @@ pub fn run_history(h: &History, checks: &Checks, fs: &SimFs) -> RunOut {
                 for (_, (s, _)) in std::mem::take(&mut snaps) {
                     d.release_snapshot(s);
                 }
-                let _ = settle(d, &mut stats, &mut obs, i, &mut drv, &mut chain);
+                let mut gate = None;
+                if let Op::CloseBusy(k, _) = op {
+                    crate::sched::reset();
+                    let g = crate::sched::arm("bg", "bg:compact-loop", *k);
+                    let keys: Vec<Vec<u8>> = oracle.keys().take(24).cloned().collect();
+                    let mut n = 0usize;
+                    while !g.wait_parked(std::time::Duration::from_millis(0)) && n < 600 {
+                        n += 1;
+                        // never write behind an immutable memtable: with the thread parked the writer
+                        // would wait for it
+                        if d.verif_state().imm.is_some() {
+                            std::thread::sleep(std::time::Duration::from_millis(1));
+                            continue;
+                        }
+                        let key = if keys.is_empty() { format!("zb{:02}", n % 12).into_bytes() } else { keys[n % keys.len()].clone() };
+                        let mut v = format!("busy{n:04}-").into_bytes();
+                        v.resize(40 + (n * 7) % 60, b'z');
+                        if d.put(wo(), key.clone(), v.clone()).is_ok() {
+                            oracle.insert(key, v);
+                        }
+                    }
+                    gate = Some(g);
+                } else {
+                    let _ = settle(d, &mut stats, &mut obs, i, &mut drv, &mut chain);
+                }
                 let old = db.take().unwrap();
-                let dropped = std::panic::catch_unwind(std::panic::AssertUnwindSafe(move || drop(old)));
-                if dropped.is_err() {
-                    obs.push(Obs { sig: "c09:panic-in-close".into(), what: "closing the database panicked".into(), at: i });
-                    break;
+                match gate {
+                    Some(g) if g.wait_parked(std::time::Duration::from_millis(0)) => {
+                        stats.closes_during_table_compaction += 1;
+                        let closer = std::thread::spawn(move || std::panic::catch_unwind(std::panic::AssertUnwindSafe(move || drop(old))).is_ok());
+                        // the close sets the shutdown flag and waits for the parked task
+                        std::thread::sleep(std::time::Duration::from_millis(25));
+                        g.release();
+                        let t0 = std::time::Instant::now();
+                        while !closer.is_finished() && t0.elapsed() < std::time::Duration::from_secs(20) {
+                            std::thread::sleep(std::time::Duration::from_millis(2));
+                        }
+                        crate::sched::reset();
+                        if !closer.is_finished() {
+                            obs.push(Obs { sig: "c09:close-never-returns".into(), what: "closing the database while its compaction thread was inside a table compaction did not return within 20 s".into(), at: i });
+                            break;
+                        }
+                        if !closer.join().unwrap_or(false) {
+                            obs.push(Obs { sig: "c09:panic-in-close".into(), what: "closing the database panicked".into(), at: i });
+                            break;
+                        }
+                    }
+                    other => {
+                        if let Some(g) = other {
+                            g.release();
+                        }
+                        crate::sched::reset();
+                        let dropped = std::panic::catch_unwind(std::panic::AssertUnwindSafe(move || drop(old)));
+                        if dropped.is_err() {
+                            obs.push(Obs { sig: "c09:panic-in-close".into(), what: "closing the database panicked".into(), at: i });
+                            break;
+                        }
+                    }
                 }
                 // what the closing instance still did (its last background task) belongs to its own
                 // protocol run: validate it before the counters start again for the new instance
